@@ -85,3 +85,33 @@ Example C17_sequence_nonvacuous :
     Some {| co_sent := Some [(s "content-type", s "application/json"); (s "x-client-tag", s "c0")]; co_ok := true |};
     Some {| co_sent := Some [(s "content-type", s "application/x-protobuf")]; co_ok := true |} ].
 Proof. vm_compute. reflexivity. Qed.
+
+(* ---- routes over a shared request message: each route binds with its own path variables ------------- *)
+Theorem C17_shared_message_isolated : forall table r pre rq post,
+  NoDup (map sr_name table) -> In r table -> sq_route rq = sr_name r ->
+  nth_error (run_shared table (pre ++ rq :: post)) (List.length pre) = Some (Some (serve_shared r rq)).
+Proof. exact shared_message_isolated. Qed.
+Print Assumptions C17_shared_message_isolated.
+
+Theorem C17_shared_message_as_alone : forall table r pre rq post,
+  NoDup (map sr_name table) -> In r table -> sq_route rq = sr_name r ->
+  nth_error (run_shared table (pre ++ rq :: post)) (List.length pre) = nth_error (run_shared [r] [rq]) 0.
+Proof. exact shared_message_as_alone. Qed.
+Print Assumptions C17_shared_message_as_alone.
+
+Theorem C17_undeclared_variable_unbound : forall params pv f m m',
+  ~ In f params -> bind_path params pv m = SDispatch m' -> flookup f m' = flookup f m.
+Proof. intros params pv f m m' Hn H. exact (bind_path_undeclared params pv f Hn m m' H). Qed.
+Print Assumptions C17_undeclared_variable_unbound.
+
+(* POST /projects/{project_id}/items and PUT /projects/{project_id}/items/{id} over one message, called
+   in both orders: create never binds {id} (the body's value stays), update always does *)
+Example C17_shared_nonvacuous :
+  let create := {| sr_name := s "CreateItem"; sr_body := true; sr_path := [s "project_id"]; sr_query := [] |} in
+  let update := {| sr_name := s "UpdateItem"; sr_body := true; sr_path := [s "project_id"; s "id"]; sr_query := [] |} in
+  let c := {| sq_route := s "CreateItem"; sq_path := [(s "project_id", s "p1")]; sq_query := []; sq_body := [(s "id", s "b"); (s "name", s "n")] |} in
+  let u := {| sq_route := s "UpdateItem"; sq_path := [(s "project_id", s "p2"); (s "id", s "i2")]; sq_query := []; sq_body := [(s "id", s "b"); (s "name", s "n")] |} in
+  let rc := Some (SDispatch [(s "id", s "b"); (s "name", s "n"); (s "project_id", s "p1")]) in
+  let ru := Some (SDispatch [(s "id", s "i2"); (s "name", s "n"); (s "project_id", s "p2")]) in
+  run_shared [create; update] [c; u] = [rc; ru] /\ run_shared [create; update] [u; c] = [ru; rc].
+Proof. vm_compute. split; reflexivity. Qed.
